@@ -207,6 +207,11 @@ class CallMixin:
         if len(self.stack) > MAX_DEPTH or sum(1 for f in self.stack if f.node is fv.node) >= 2:
             self.note_undecided("recursion or inlining depth bound reached", node)
             return Top("recursion")
+        h = self.hooks.get("call-args")
+        if h is not None:
+            r = h(self, fv, args, kwargs, node)
+            if r is not None:
+                args, kwargs = r
         bound = self.bind_args(fv, args, kwargs, node, state)
         if bound is None or state.bottom:
             return Bottom()
@@ -263,6 +268,13 @@ class CallMixin:
             for k in [k for k in out_state.vars if k[0] == fr.fid]:
                 del out_state.vars[k]
         state.assign_from(out_state)
+        if self.opaque_funcs and isinstance(rv, Num) and fi is not None and fi.fq in self.opaque_funcs:
+            # uninterpreted-function view of the callee (value numbering only): f(args) as an atom
+            syms = [a.sym if isinstance(a, Num) else None for a in ([] if fv.self_val is None else []) + list(args)]
+            if all(x is not None for x in syms) and not kwargs:
+                from .values import mk_sym
+
+                rv = replace(rv, sym=mk_sym("call", "fn:" + fi.name, *syms))
         self.event("return", node, callee=label, val=rv)
         return rv
 
